@@ -9,6 +9,8 @@ from .session import Sess, _MSG_RE
 SVARS = ['A', 'B', 'C', 'D', 'I', 'J']
 IVARS = ['K%', 'L%', 'M%', 'N%']
 ALLVARS = SVARS + IVARS
+BARE = [{'n': 'X', 'i': 'X%', 'f': 'X!'}, {'n': 'Y', 'i': 'Y%', 'f': 'Y!'}]
+DTNAMES = ['X', 'Y', 'X', 'Y', 'X!', 'X%', 'Y!', 'Y%']
 
 
 def C(v):
@@ -94,6 +96,9 @@ def rstmt(st, rest=None):
         return 'RUN %d' % st['n'] if st['n'] else 'RUN'
     if op == 'DEFFN':
         return 'DEF %s%s=%s' % (st['f'], '(%s)' % ','.join(st['ps']) if st['ps'] else '', rexpr(st['e']))
+    if op == 'DEFTYPE':
+        # DEFINT / DEFSNG for the first letters of the listed bare names (no other name of a program starts with them)
+        return '%s %s' % ('DEFINT' if st['t'] == '%' else 'DEFSNG', ','.join(sorted(set(n[0] for n in st['ns']))))
     if op == 'REM':
         return "REM x:PRINT 99"
     raise ValueError(op)
@@ -172,6 +177,9 @@ class Gen(object):
         self.budget = 0
         self.fnsig = {}           # function name -> number of parameters (known to the generator so far)
         self.fndepth = 0
+        # DEFINT / DEFSNG mode: bare names X, Y whose type changes while the program runs (with their twins X!, X%, Y!, Y%)
+        self.dt = bool({'fn', 'reset'} & set(profile)) and rng.random() < 0.5
+        self.names = ALLVARS + (DTNAMES if self.dt else [])
 
     # ---- expressions ----
     def small(self):
@@ -186,7 +194,7 @@ class Gen(object):
             self.fndepth -= 1
             return e
         if self.r.random() < 0.55:
-            return V(self.r.choice(ALLVARS))
+            return V(self.r.choice(self.names))
         return C(self.small())
 
     def expr(self, depth=2):
@@ -217,8 +225,10 @@ class Gen(object):
 
     def simple(self):
         r = self.r.random()
+        if self.dt and r < 0.12:
+            return {'op': 'DEFTYPE', 't': self.r.choice('%%!'), 'ns': [self.r.choice(['X', 'Y'])]}
         if r < 0.45:
-            v = self.r.choice(ALLVARS)
+            v = self.r.choice(self.names)
             return {'op': 'LET', 'v': v, 'e': self.expr()}
         return {'op': 'PRINT', 'e': self.expr(1)}
 
@@ -414,7 +424,10 @@ class Gen(object):
                 self.fnsig['FNZ'] = 1            # called but (maybe) never defined: Undefined user function
             for f in self.r.sample(['FNA', 'FNB', 'FNK%', 'FNR'], self.r.randint(1, 4)):
                 np_ = self.r.randint(0, 2)
-                ps = self.r.sample(ALLVARS, np_)
+                ps = self.r.sample(ALLVARS + (['X', 'Y', 'X', 'Y'] if self.dt else []), np_)
+                if len(set(ps)) < len(ps):
+                    ps = ps[:1]
+                    np_ = 1
                 if np_ == 2 and self.r.random() < 0.2:
                     ps = [ps[0], ps[0]]           # the same variable twice in the parameter list
                 known = dict(self.fnsig)
@@ -431,6 +444,9 @@ class Gen(object):
                 self.fnsig[f] = np_
                 if self.r.random() < 0.3:
                     self.line([self.simple()])
+                if self.dt and self.r.random() < 0.5:
+                    # the type of the bare names changes between the definition and the calls
+                    self.line([{'op': 'DEFTYPE', 't': self.r.choice('%%!'), 'ns': [self.r.choice(['X', 'Y'])]}])
         if 'data' in self.p and self.r.random() < 0.5:
             self.line([{'op': 'DATA', 'items': [{'num': True, 'v': self.r.randint(0, 50)} for _ in range(self.r.randint(1, 3))]}])
         self.block(0, None)
@@ -515,6 +531,10 @@ class Gen(object):
                     st['ns'] = [fix(t, idx) for t in st['ns']]
                 st.pop('fix_on', None)
         prog = {'lines': self.lines, 'vars': list(ALLVARS), 'ints': list(IVARS) + ['FNK%']}
+        if self.dt:
+            prog['vars'] += ['X!', 'X%', 'Y!', 'Y%']
+            prog['ints'] += ['X%', 'Y%']
+            prog['bare'] = [dict(b) for b in BARE]
         text = render(prog)      # also sets the col flags
         return prog, text
 
